@@ -70,7 +70,10 @@ NastyLabels == SelectSeq(NastyStr, Short) \o << Rep(63, 255), Rep(63, 46), Rep(6
 \* values inside the restricted alphabets
 Digits == << <<48>>, <<51, 49, 49, 48, 54, 49, 55, 48, 48, 57, 53, 54>>, Rep(255, 57) >>
 Floats == << <<48>>, <<45, 51, 50, 46, 54, 56, 56, 50>>, <<43, 49, 49, 54, 46, 56, 54, 53, 50>>, <<49, 48, 46, 48>>, Rep(255, 49) >>
-Tags   == << <<105, 115, 115, 117, 101>>, <<105, 115, 115, 117, 101, 119, 105, 108, 100>>, <<105, 111, 100, 101, 102>>, <<65, 48>>, Rep(255, 122) >>
+\* ... among them tags that spell a type or class mnemonic (in, ch, hs, cs, any, none, a, mx, ns, md, mf, mb, aaaa, caa, IN)
+MnemonicTags == << <<105, 110>>, <<99, 104>>, <<104, 115>>, <<99, 115>>, <<97, 110, 121>>, <<110, 111, 110, 101>>, <<97>>, <<109, 120>>, <<110, 115>>,
+                   <<109, 100>>, <<109, 102>>, <<109, 98>>, <<97, 97, 97, 97>>, <<99, 97, 97>>, <<73, 78>>, <<116, 121, 112, 101, 49>>, <<99, 108, 97, 115, 115, 49>> >>
+Tags   == MnemonicTags \o << <<105, 115, 115, 117, 101>>, <<105, 115, 115, 117, 101, 119, 105, 108, 100>>, <<105, 111, 100, 101, 102>>, <<65, 48>>, Rep(255, 122) >>
 AlphaStr(t, n) == CASE t = 19 -> Digits [] t = 27 -> Floats [] t = 257 /\ n = "Tag" -> Tags [] OTHER -> <<>>
 
 NastyFor(t, e) ==
@@ -184,6 +187,12 @@ LocBndMsg(j) ==
 NLocBnd == NLocAlt + Len(LocLats) + Len(LocLons) + Len(LocSizes)
 ExoticMsg(j) == One1(ExoticCases[j][1], ExoticCases[j][2])
 
+\* RFC 3597 RDATA whose hex text spells type / class mnemonics: aaaa, a, caa (upper and lower case are the harness' business)
+MnemonicRdata == << <<170, 170>>, <<170, 170, 170, 170>>, <<10>>, <<202, 170>>, <<170, 170, 170, 202, 160>>, <<12, 170>>, <<160>>, <<170>>, <<173, 170, 170>> >>
+MnemonicTypes == <<65280, 11, 1234, 65534>>
+MnemonicMsg(j) == LET t == MnemonicTypes[1 + ((j - 1) \div Len(MnemonicRdata))]  rd == MnemonicRdata[1 + ((j - 1) % Len(MnemonicRdata))] IN
+                  Msg(H0, <<>>, << RR(Owner, t, 1 + (j % 4), Ttl1h, [Rdata |-> rd]) >>, <<>>, <<>>)
+
 \* nasty owners, each with a TXT record
 OwnerMsg(j) == Msg(H0, <<>>, << RR(<< NastyLabels[j], <<120>> >>, 16, 1, Ttl1h, [Txt |-> << <<104, 105>> >>]) >>, <<>>, <<>>)
 
@@ -224,6 +233,7 @@ PInit ==
            \/ t = 29 /\ \E j \in 1..Len(LocCases) : v = <<-3, 0, j>>
            \/ t = 29 /\ \E j \in 1..NLocBnd : v = <<-4, 0, j>>
            \/ t = 28 /\ \E j \in 1..NExotic : v = <<-5, 0, j>>
+           \/ t = 28 /\ \E j \in 1..(Len(MnemonicTypes) * Len(MnemonicRdata)) : v = <<-6, 0, j>>
   \/ PMode = "blobs" /\ \/ \E x \in 1..Len(BlobTypes), k \in 1..Len(BlobSizes) : InShard(BlobTypes[x] + k) /\ v = <<BlobTypes[x], k>>
                         \/ InShard(0) /\ v = <<50, 0>>
   \/ PMode = "codes" /\ \E k \in 1..2 : \E c \in CodeSet : InShard(c) /\ v = <<k, c>>
@@ -237,6 +247,7 @@ PCase == IF PMode = "c01" THEN Case
          ELSE IF v[1] = -3 THEN LocMsg(v[3])
          ELSE IF v[1] = -4 THEN LocBndMsg(v[3])
          ELSE IF v[1] = -5 THEN ExoticMsg(v[3])
+         ELSE IF v[1] = -6 THEN MnemonicMsg(v[3])
          ELSE NastyMsg(v[1], v[2], v[3])
 
 \* a value that text or the wire can produce: an APL item names a network, its address has no bits beyond the prefix
